@@ -2,8 +2,11 @@
 
 check(ctx):
   1. Properties/C19.v (theorems about Model/KM.v, Gamma a Section variable), allow-list core.AX_REALS;
-  2. slice translator + Bridge/KMBridge.v: every formula slice of the helpers, of the estimateFootprint chain
-     and of estimateZ0 re-extracted from the CURRENT source equals the model kernel for all real arguments;
+  2. slice translator + Bridge/KMHelpBridge.v, KMBridge.v, KMLoopBridge.v: every formula slice of the helpers, of the
+     estimateFootprint chain and of estimateZ0 re-extracted from the CURRENT source equals the model kernel for all real
+     arguments; whole-function translator harness/py2coq_km.py + Bridge/KMFunBridge.v, KMFpFunBridge.v: the control
+     structure of estimateZ0 (smoothing loop) and estimateFootprint (grid, early exit, rotation, masked store, return)
+     interpreted = the model's functions for all inputs (kmslices.run);
   3. interval-certified correspondence: for generated physically consistent parameter sets, grids, receptor
      positions and wind directions the goals
          Rabs (model(exact rationals of the float inputs, scipy's Gamma values as data) - python value) <= tol
@@ -40,7 +43,7 @@ THEOREMS_MAIN = [  # Properties/C19.v: standard library only (coqchk-able in abo
 THEOREMS_NUM = ["C19_int_refuted", "C19_mass_partial"]  # Properties/C19Num.v: interval tactic / Coquelicot
 THEOREMS = THEOREMS_MAIN + THEOREMS_NUM
 TRUSTED = [
-    "Model/KM.v is hand-written over Coq's reals; tied to ffm_kormann_meixner.py by Bridge/KMBridge.v on re-extracted slices (all arguments) and by the interval-certified / exact correspondences of this run",
+    "Model/KM.v is hand-written over Coq's reals; tied to ffm_kormann_meixner.py by Bridge/KMHelpBridge.v, KMBridge.v, KMLoopBridge.v on re-extracted slices (all arguments), by Bridge/KMFunBridge.v, KMFpFunBridge.v on the whole translated bodies of estimateZ0 / estimateFootprint and by the interval-certified / exact correspondences of this run",
     "the Gamma function is a Section variable of the model (no installed Coq library defines it); theorems assume only forall x>0, Gamma x > 0; in the correspondence the two values scipy.special.gamma returns (at mu and 1/r) are passed in as data and the arguments it was called with are certified against the model's mu and 1/r",
     "the `interval` tactic (reification, floating-point interval kernels on primitive integers) at i_prec 80-120",
     "Python `**`, np.exp, np.log, np.arctan, np.arctan2, np.sqrt are modelled by Rpower (positive bases), exp, ln, atan, the model's atan2, sqrt",
